@@ -59,6 +59,10 @@ def be_value(E, st, zs):
                 rest = zs.arg(1) if zs.num_args() == 2 else z3.Concat(*[zs.arg(i) for i in range(1, zs.num_args())])
                 st.fact(t == ops.byte_int(E, st, first.arg(0)) * ops.pow2(E, st, 8 * seq_length(E, st, rest)) + BE(rest))
                 st.fact(BE(rest) >= 0)
+                if E.options.get('be_range'):
+                    # opt-in: range of the tail by its length, be(r) < 256**len(r) (the bound int_lemmas states for every be();
+                    # here only for the tail of a cons instance, without the pairwise 2**x ordering facts of int_lemmas)
+                    st.fact(BE(rest) < ops.pow2(E, st, 8 * seq_length(E, st, rest)))
     if E.options.get('int_lemmas') is not None:
         # opt-in ground facts of base-256 positional notation: range by length, lower bound by a non-zero leading
         # digit, and injectivity on strings of one length (i2osp is the left inverse of be)
@@ -258,6 +262,11 @@ def b_hasattr(E, st, args, kw):
     v, name = args
     if not isinstance(name, str):
         raise Unsupported('hasattr with non-constant name')
+    if isinstance(v, SUnionIB):
+        outs = []
+        for s1, v1 in E.resolve_union(st, v):
+            outs += b_hasattr(E, s1, [v1, name], kw)
+        return outs
     if isinstance(v, Ref):
         h = st.heap[v.oid]
         if h.kind == 'obj' and isinstance(h.fields.get(name), LazyUnion):
@@ -382,6 +391,17 @@ def b_int(E, st, args, kw):
     if v is None or isinstance(v, tuple):
         return rz(st, TypeError, 'int() argument must be a string, a bytes-like object or a real number')
     if isinstance(v, SBytes):
+        # a byte string of decided length 1..4 whose bytes the path condition confines to ASCII digits: its decimal value (exact;
+        # int() accepts leading zeros in strings).  Anything else (sign, blanks, underscores, other lengths): outside the subset
+        n = seq_length(E, st, v.t)
+        n = z3.simplify(n) if not isinstance(n, int) else n
+        if z3.is_int_value(n) and 1 <= n.as_long() <= 4:
+            ds = [z3.BV2Int(v.t[i]) for i in range(n.as_long())]
+            if E.implied(st, z3.And([z3.And(d >= 48, d <= 57) for d in ds])):
+                t = z3.IntVal(0)
+                for d in ds:
+                    t = t * 10 + (d - 48)
+                return val(st, mk_int(t))
         raise Unsupported('int(symbolic bytes)')
     raise Unsupported('int(%r)' % (v,))
 
@@ -616,6 +636,13 @@ def b_pow(E, st, args, kw):
         outs = [('val', s1, v) for s1, v in ops.binop(E, ast.Pow(), args[0], args[1], st, sink)]
         return sink + outs
     b, e, m = args
+    if any(isinstance(x, SUnionIB) for x in args):
+        # int|bytes union operand: the Python type decides (bytes -> TypeError below)
+        outs = []
+        i = [k for k, x in enumerate(args) if isinstance(x, SUnionIB)][0]
+        for s1, v1 in E.resolve_union(st, args[i]):
+            outs += b_pow(E, s1, args[:i] + [v1] + args[i + 1:], kw)
+        return outs
     if m is None:
         return b_pow(E, st, [b, e], kw)
     if all(isinstance(x, int) for x in args):
@@ -757,9 +784,11 @@ def b_dict(E, st, args, kw):
 
 def b_set(E, st, args, kw):
     items = E.iter_concrete(args[0], st) if args else []
-    if all(_conc(x) for x in items):
+    if args and all(_conc(x) for x in items):
         return val(st, frozenset(items))
-    return val(st, tuple(items))
+    # a mutable set (or one with symbolic members): heap cell of kind 'set' = the list of values added so far; exact for
+    # add / `in` (membership = equality with one of them) / discard-free use; len and iteration are Unsupported
+    return val(st, st.alloc(HObj('set', items=list(items))))
 
 
 def b_sorted(E, st, args, kw):
@@ -1435,6 +1464,15 @@ def container_attr(E, st, ref, h, attr):
             st.writes.append((ref.oid, '<items>'))
             return val(st, None)
         return BuiltinV('list.' + attr, lm)
+    if h.kind == 'set':
+        if attr != 'add':
+            raise Unsupported('set.%s' % attr)
+
+        def sadd(E, st, a, k):
+            st.heap[ref.oid].items.append(a[0])
+            st.writes.append((ref.oid, '<items>'))
+            return val(st, None)
+        return BuiltinV('set.add', sadd)
     if h.kind == 'alist':
         if attr != 'append':
             raise Unsupported('counted list .%s' % attr)
